@@ -137,7 +137,7 @@ def strip_vis(s):
     return VIS.sub('', s, count=1)
 
 
-def find_header(src, mask, find, lo, hi, what):
+def find_header(src, mask, find, lo, hi, what, nth=None):
     """Find the unique line in src[lo:hi] whose stripped text (visibility
     removed) starts with `find`; return offset of the first non-blank char."""
     hits = []
@@ -152,6 +152,11 @@ def find_header(src, mask, find, lo, hi, what):
         if st and mask[off] and (strip_vis(st).startswith(find) or st.startswith(find)):
             hits.append(off)
         pos = e + 1
+    if nth is not None:
+        # several items with the same header (e.g. two `impl X {` blocks): the overlay names which one
+        if nth >= len(hits):
+            raise ExtractError("lost anchor: %s: header %r found %d times, overlay wants #%d" % (what, find, len(hits), nth))
+        return hits[nth]
     if len(hits) != 1:
         raise ExtractError("lost anchor: %s: header %r found %d times" % (what, find, len(hits)))
     return hits[0]
@@ -318,7 +323,7 @@ def extract_item(spec, contracts, log):
     what = "%s:%s" % (spec['file'], spec['find'])
     inside = spec.get('inside')
     if inside:
-        h = find_header(src, mask, inside, 0, len(src), spec['file'] + ':' + inside)
+        h = find_header(src, mask, inside, 0, len(src), spec['file'] + ':' + inside, spec.get('inside_nth'))
         e = item_extent(src, mask, h)
         lo = body_open(src, mask, h, e) + 1
         hi = e - 1
